@@ -1,18 +1,18 @@
 SPECIFICATION Spec
 CONSTANTS
-    NSess = 2
+    NSess = 1
     NThr = 2
     Prin = {"a"}
     Worker = {"w1"}
     SealFails = {}
     TTLs = {1}
-    MaxNow = 2
+    MaxNow = 1
     MaxReq = 3
-    MaxOps = 1
-    MaxReaps = 1
+    MaxOps = 0
+    MaxReaps = 0
     ResumeScripts = {"noop", "close"}
     OpenScripts = {"open"}
-    Routes = {"unary"}
+    Routes = {"unary", "pinit", "pcont", "xturn"}
     Toks = {"own"}
     Lags = {0}
     AadBinds = TRUE
